@@ -86,8 +86,7 @@ def gen(chk):
     for a in A2: add(U, [a], 'exhaustive_depth1')
     for a in A2:
         for b in A2: add(U, [a, b], 'exhaustive_depth2')
-    # depth 3: the first operation only on object 0 in the quick tier (the two objects are interchangeable: relabelling symmetry)
-    for a in (alphabet(0) if chk.quick() else A2):
+    for a in A2:
         for b in A2:
             for c in A2: add(U, [a, b, c], 'exhaustive_depth3')
     # exhaustive depth 4 on one object over the core alphabet (11^4), thorough: also 16^4 on one object
